@@ -26,7 +26,7 @@ import (
 // initial trusted dealing and confirmed to be the discrete logarithm of the public key, which
 // pins it uniquely), the public key, the current policy / holder IDs / shards, and keeps every
 // epoch's shards. Actions: refresh, recover, redistribute, sign, mix (mixed-epoch signing),
-// reload. After every epoch-changing action the full invariant is checked (see checkEpoch and
+// stale (an epoch change in which some drivers use a shard of an earlier epoch), reload. After every epoch-changing action the full invariant is checked (see checkEpoch and
 // checkMixReconstruct).
 
 const test = "History"
@@ -106,7 +106,7 @@ func drawQuorum(t *rapid.T, p *policy.Policy, within uint64, label string) (mask
 // qualified subset of it. (Every qualified set has >= 2 members: policy.Draw returns no policy
 // with a qualified singleton, and the library's unanimity structure over prev needs two.)
 func drawPrev(t *rapid.T, p *policy.Policy, within uint64) (mask uint64, mode string) {
-	if rapid.IntRange(0, 2).Draw(t, "prevAll") == 0 {
+	if rapid.Bool().Draw(t, "prevAll") && rapid.Bool().Draw(t, "prevAll2") { // 1/4 (rapid's small integer ranges are not uniform)
 		return within, "all"
 	}
 	mask, _ = drawQuorum(t, p, within, "prev")
@@ -192,6 +192,15 @@ func relation(cur, next []uint64) string {
 // the next structure is (np, nids). lost holders take part without a previous shard. anchors
 // gives the trusted anchor of next-only parties (0 = none). Returns the next holders' shards.
 func (m *machine) runEpochChange(t *rapid.T, what string, prevMask uint64, np *policy.Policy, nids []uint64, lost map[proto.ID]bool, anchors map[proto.ID]proto.ID, seed uint64) map[proto.ID]any {
+	out, _ := m.runEpochChangeWith(t, what, prevMask, np, nids, lost, anchors, seed, nil)
+	return out
+}
+
+// runEpochChangeWith: stale (may be nil) replaces the previous shard of some parties by a shard of
+// an EARLIER epoch; with stale shards the run is not honest any more: party errors are returned
+// (failed[id]) instead of being violations, and idle parties are cancelled after a short while.
+func (m *machine) runEpochChangeWith(t *rapid.T, what string, prevMask uint64, np *policy.Policy, nids []uint64, lost map[proto.ID]bool, anchors map[proto.ID]proto.ID, seed uint64, stale map[proto.ID]any) (map[proto.ID]any, map[proto.ID]string) {
+	honest := len(stale) == 0
 	ac, err := policy.Build(np, nids)
 	if err != nil {
 		t.Fatalf("%s: building the next structure %s ids=%v: %v", what, np, nids, err)
@@ -221,13 +230,23 @@ func (m *machine) runEpochChange(t *rapid.T, what string, prevMask uint64, np *p
 		if sh, ok := m.cur.shards[id]; ok && !lost[id] {
 			prevShard = sh
 		}
+		if sh, ok := stale[id]; ok {
+			prevShard = sh
+		}
 		r, err := m.g.RedistributeRunner(ctxs[id], prev, prevShard, ac, proto.PartyPRNG(seed, "redistribute", id), anchors[id])
 		if err != nil {
+			// (a stale shard has the same span programme as the current one, so the constructor's
+			// precondition "prev is qualified under the shard's MSP" holds for it as well)
 			t.Fatalf("%s: party %d refused a documented-valid configuration (prev=%v next=%v anchor=%d): %v", what, id, prev, next, anchors[id], err)
 		}
 		runners[id] = r
 	}
-	res, oc := netsim.RunAll(netsim.New(all), runners, netsim.Options{Idle: 60 * time.Second, Hard: 15 * time.Minute})
+	opt := netsim.Options{Idle: 60 * time.Second, Hard: 15 * time.Minute}
+	if !honest {
+		opt.Idle = 5 * time.Second
+		opt.StallOK = func() bool { return true }
+	}
+	res, oc := netsim.RunAll(netsim.New(all), runners, opt)
 	if timing {
 		fmt.Fprintf(os.Stderr, "TIMING %-40s %8.3fs\n", fmt.Sprintf("protocol %s parties=%d", m.g.Name(), len(all)), oc.Wall.Seconds())
 	}
@@ -235,12 +254,17 @@ func (m *machine) runEpochChange(t *rapid.T, what string, prevMask uint64, np *p
 		t.Fatalf("%s: the protocol did not terminate", what)
 	}
 	out := map[proto.ID]any{}
+	failed := map[proto.ID]string{}
 	for _, id := range all {
 		r := res[id]
 		if r.Panic != nil {
 			t.Fatalf("%s: party %d panicked: %v\n%s", what, id, r.Panic, r.Stack)
 		}
 		if r.Err != nil || !r.Done {
+			if !honest {
+				failed[id] = fmt.Sprint(r.Err)
+				continue
+			}
 			t.Fatalf("%s: honest run failed at party %d (prev=%v next=%v anchor=%d next-holder=%v): %v", what, id, prev, next, anchors[id], isNext[id], r.Err)
 		}
 		if isNext[id] {
@@ -250,7 +274,7 @@ func (m *machine) runEpochChange(t *rapid.T, what string, prevMask uint64, np *p
 			out[id] = r.Out
 		}
 	}
-	return out
+	return out, failed
 }
 
 // ---- invariants -----------------------------------------------------------------------------------
@@ -410,6 +434,25 @@ func (m *machine) checkMixReconstruct(t *rapid.T, what string, old *epoch) {
 	}
 }
 
+// properSubsetExists: some qualified set strictly inside `within`.
+func properSubsetExists(p *policy.Policy, within uint64) bool {
+	for _, i := range policy.Members(within) {
+		if p.Qualified(within &^ (1 << uint(i))) {
+			return true
+		}
+	}
+	return false
+}
+
+func containsID(ids []proto.ID, id proto.ID) bool {
+	for _, v := range ids {
+		if v == id {
+			return true
+		}
+	}
+	return false
+}
+
 func firstLine(s string) string {
 	if i := strings.IndexByte(s, '\n'); i >= 0 {
 		s = s[:i]
@@ -475,7 +518,7 @@ func (m *machine) drawAnchors(t *rapid.T, prevMask uint64, participants []proto.
 	if len(newcomers) == 0 {
 		return anchors, "n/a"
 	}
-	switch rapid.SampledFrom([]string{"off", "on", "some"}).Draw(t, "anchorMode") {
+	switch rapid.SampledFrom([]string{"off", "on", "some", "off"}).Draw(t, "anchorMode") {
 	case "off":
 		return anchors, "off"
 	case "on":
@@ -510,6 +553,7 @@ func (m *machine) refresh(t *rapid.T) {
 	m.desc = append(m.desc, vlib.Desc("refresh", p.Family+">"+p.Family, "anchor="+aflag, "prev="+mode))
 	m.class("action=refresh")
 	m.class("refresh:prev=%s", mode)
+	m.class("refresh:proper-qualified-subset-exists=%v", properSubsetExists(p, p.Full()))
 	m.class("refresh:anchor=%s", aflag)
 	m.class("transition=%s>%s", p.Family, p.Family)
 	m.commit(t, what, p, ids, shards)
@@ -609,6 +653,118 @@ func (m *machine) redistribute(t *rapid.T) {
 	m.class("redistribute:ids=%s", regime)
 	m.class("transition=%s>%s", cp.Family, np.Family)
 	m.commit(t, what, np, nids, shards)
+}
+
+// stale: an epoch change (refresh of the same structure, or redistribution to a new one) in which
+// some of the driving previous holders use their shard of an EARLIER epoch of the same structure
+// (a holder restored from a backup) while the others use the current one. Shares of different
+// epochs must not combine: the run may abort at any party; whoever completes must still hold the
+// ORIGINAL public key and a share that lifts to its public share; if every next holder completes,
+// the new epoch must satisfy the whole invariant (it is then adopted), otherwise the state stays.
+func (m *machine) stale(t *rapid.T) {
+	if !m.budget() {
+		return
+	}
+	olds := m.sameStructureEpochs()
+	if len(olds) == 0 {
+		t.Skip("no earlier epoch of the current structure")
+	}
+	m.steps++
+	cp, cids := m.cur.p, m.cur.ids
+	old := olds[rapid.IntRange(0, len(olds)-1).Draw(t, "oldEpoch")]
+	np, nids, target := cp, cids, "same"
+	if rapid.Bool().Draw(t, "newStructure") {
+		np = policy.Draw(t, policy.Opts{MaxN: m.maxN, Families: []string{policy.Threshold, policy.Unanimity, policy.CNF, policy.Gate}})
+		avoid := map[uint64]bool{}
+		for _, v := range cids {
+			avoid[v] = true
+		}
+		keep := rapid.IntRange(0, min(np.N, len(cids))).Draw(t, "keep")
+		kept := rapid.Permutation(cids).Draw(t, "keptOrder")[:keep]
+		nids = assign(t, np, append(append([]uint64{}, kept...), drawFreshIDs(t, np.N-keep, avoid, policy.Sparse)...))
+		target = "new:" + relation(cids, nids)
+	}
+	prevMask, mode := drawPrev(t, cp, cp.Full())
+	if target == "same" && mode == "all" {
+		// prefer a proper qualified subset, so that the remaining holders are next-only parties
+		if q, _ := drawQuorum(t, cp, cp.Full(), "stalePrev"); q != cp.Full() {
+			prevMask, mode = q, "subset"
+		}
+	}
+	prevIdx := policy.Members(prevMask)
+	nStale := rapid.IntRange(1, len(prevIdx)-1).Draw(t, "nStale") // at least one stale, at least one current
+	staleIdx := rapid.Permutation(prevIdx).Draw(t, "staleOrder")[:nStale]
+	stale := map[proto.ID]any{}
+	var staleMask uint64
+	for _, i := range staleIdx {
+		id := proto.ID(cids[i])
+		stale[id] = old.shards[id]
+		staleMask |= 1 << uint(i)
+	}
+	// neither the stale nor the current part of prev qualified alone => the contributions cannot add up to the secret
+	separated := !cp.Qualified(staleMask) && !cp.Qualified(prevMask&^staleMask)
+	prevIDs := policy.IDList(cids, prevMask)
+	var participants []proto.ID
+	seen := map[proto.ID]bool{}
+	for _, id := range append(append([]proto.ID{}, prevIDs...), proto.ToIDs(nids)...) {
+		if !seen[id] {
+			seen[id] = true
+			participants = append(participants, id)
+		}
+	}
+	anchors, aflag := m.drawAnchors(t, prevMask, participants)
+	seed := rapid.Uint64().Draw(t, "seed")
+	step := fmt.Sprintf("stale#%d(%s ids=%v => %s ids=%v prev=%v of which %v use their epoch-%d shard, anchors=%v)", m.cur.no+1, cp, cids, np, nids, prevIDs, policy.IDList(cids, staleMask), old.no, anchors)
+	what := m.what(step)
+	shards, failed := m.runEpochChangeWith(t, what, prevMask, np, nids, nil, anchors, seed, stale)
+	for _, id := range proto.ToIDs(nids) {
+		sh, ok := shards[id]
+		if !ok {
+			continue
+		}
+		info, err := m.g.Info(sh)
+		if err != nil {
+			t.Fatalf("%s: reading the shard of %d: %v", what, id, err)
+		}
+		if !bytes.Equal(info.PK, m.pk) {
+			t.Fatalf("%s: PUBLIC KEY CHANGED: next holder %d accepted a shard for %x, the original key is %x (shares of epochs %d and %d were combined)", what, id, info.PK, m.pk, old.no, m.cur.no)
+		}
+		if ok, err := m.g.LiftedShareMatches(sh); err != nil || !ok {
+			t.Fatalf("%s: next holder %d accepted a share that does not lift to its published public share (err=%v)", what, id, err)
+		}
+	}
+	m.mixChecks++
+	m.trace = append(m.trace, step)
+	m.desc = append(m.desc, vlib.Desc("stale", cp.Family+">"+np.Family, "anchor="+aflag, "prev="+mode))
+	m.class("action=stale")
+	m.class("stale:target=%s", target)
+	m.class("stale:anchor=%s", aflag)
+	m.class("stale:separated=%v", separated)
+	anchorless := 0
+	for _, id := range proto.ToIDs(nids) {
+		if _, isPrev := stale[id]; !isPrev && anchors[id] == 0 && !containsID(prevIDs, id) {
+			anchorless++
+		}
+	}
+	m.class("stale:anchorless-newcomers>0=%v", anchorless > 0)
+	outcome := "all-abort"
+	switch {
+	case len(shards) == np.N && len(failed) == 0:
+		outcome = "completed"
+	case len(shards) > 0:
+		outcome = "some-next-holders-completed"
+	case len(failed) < len(participants):
+		outcome = "next-holders-abort"
+	}
+	if outcome == "completed" && separated {
+		// every party accepted although the secret-carrying contributions come from two epochs:
+		// the invariant below decides (the reconstruction would have to give s)
+		m.class("stale:separated-yet-completed")
+	}
+	m.class("stale:outcome=%s", outcome)
+	if outcome == "completed" {
+		m.commit(t, what, np, nids, shards)
+	}
 }
 
 // sign: a drawn qualified quorum of the CURRENT structure signs a drawn message on the current
@@ -808,6 +964,7 @@ func TestHistory(t *testing.T) {
 			"redistribute": m.redistribute,
 			"sign":         m.sign,
 			"mix":          m.mix,
+			"stale":        m.stale,
 			"reload":       m.reload,
 			"": func(t *rapid.T) {
 				if len(m.cur.shards) != m.cur.p.N || len(m.archive) != m.epochChanges {
